@@ -285,6 +285,35 @@ func init() {
 		}
 		return nil
 	}
+	intrinsics[zz+"SharedBegin"] = func(e *Engine, st *State, a []Value, in ssa.Instruction) Value {
+		if e.sharedMax == 0 {
+			e.sharedMax = e.nextObj
+		}
+		if st.aux == nil {
+			st.aux = map[string]int{}
+		}
+		st.aux["rec"] = 1
+		e.record = true
+		return nil
+	}
+	intrinsics[zz+"SharedEnd"] = func(e *Engine, st *State, a []Value, in ssa.Instruction) Value {
+		if st.aux != nil {
+			st.aux["rec"] = 0
+		}
+		return nil
+	}
+	intrinsics[zz+"OnUnlock"] = func(e *Engine, st *State, a []Value, in ssa.Instruction) Value {
+		f := a[0].(FuncV)
+		if f.Fn == nil {
+			st.onUnlock = nil
+		} else {
+			st.onUnlock = &f
+		}
+		return nil
+	}
+	intrinsics[zz+"LocksHeld"] = func(e *Engine, st *State, a []Value, in ssa.Instruction) Value {
+		return BVu(uint64(len(st.held)), 64)
+	}
 	intrinsics[zz+"Note"] = func(e *Engine, st *State, a []Value, in ssa.Instruction) Value {
 		if e.traceOn {
 			st.trace = append(st.trace, a[0].(string))
@@ -421,6 +450,7 @@ func init() {
 		}
 		setLock(e, st, p, 0, 0, s.W)
 		unhold(st, p)
+		st.inject = st.onUnlock
 		return nil
 	}
 	// RWMutex: first cell (w.state) = 1 when write-locked; second cell (w.sema) counts readers.
@@ -441,6 +471,7 @@ func init() {
 		}
 		setLock(e, st, p, 0, 0, s.W)
 		unhold(st, p)
+		st.inject = st.onUnlock
 		return nil
 	}
 	intrinsics["(*sync.RWMutex).RLock"] = func(e *Engine, st *State, a []Value, in ssa.Instruction) Value {
@@ -465,6 +496,7 @@ func init() {
 		}
 		setLock(e, st, p, 1, r.U64()-1, r.W)
 		unhold(st, p)
+		st.inject = st.onUnlock
 		return nil
 	}
 }
